@@ -370,7 +370,10 @@ TEXT_CORE = ["text_scaled<SI<i8,-4>>", "text_scaled<SI<i32,-30>>", "text_scaled<
              "text_scaled<SI<i16,-16>>", "text_scaled<SI<cnl::elastic_integer<24>,-10>>", "text_scaled<SI<i32,20>>",
              "text_integer<i8>", "text_integer<u8>", "text_integer<i16>", "text_integer<i32>", "text_integer<u32>",
              "text_integer<i64>", "text_integer<u64>", "text_integer<cnl::int128_t>", "text_integer<cnl::uint128_t>",
-             "text_integer<cnl::elastic_integer<20>>"]
+             "text_integer<cnl::elastic_integer<20>>",
+             # wide_integer beyond 128 bits (signed only: cnl::to_chars does not compile for unsigned multi-limb types)
+             "text_wide<cnl::wide_integer<200>>", "text_wide<cnl::wide_integer<256, std::int32_t>>",
+             "text_wide<cnl::wide_integer<130, std::int8_t>>"]
 
 
 def text_jobs(tier):
